@@ -52,7 +52,7 @@ Proof. exact col_roundtrip_num. Qed.
 Print Assumptions C05_col_roundtrip_num.
 
 Theorem C05_spread_ok_small : forall w raws,
-  (w <= 62)%Z -> forallb (in_range w) raws = true -> spread_ok raws = true.
+  (w <= 62)%Z -> forallb (col_in_range w) raws = true -> col_spread_ok raws = true.
 Proof. exact spread_ok_small. Qed.
 Print Assumptions C05_spread_ok_small.
 
@@ -111,7 +111,7 @@ Theorem C05_width0_iff_all_equal : forall w ae raws o,
   exists e, enc_col_num w ae raws o = Ok (o ++ e) /\
     (col_width_field w e = 0%N <-> ae = true) /\
     (col_width_field w e = 0%N -> forall v, In v raws -> v = hd None raws) /\
-    (all_ones (col_base_field w e) = true <-> (forall v, In v raws -> v = None)).
+    (bits_all_ones (col_base_field w e) = true <-> (forall v, In v raws -> v = None)).
 Proof. exact width0_iff_all_equal. Qed.
 Print Assumptions C05_width0_iff_all_equal.
 
@@ -123,7 +123,7 @@ Theorem C05_allones_iff_missing : forall w raws o,
     (2 <= nd <= 63)%Z /\
     Forall2 (fun v inc =>
                length inc = Z.to_nat nd /\
-               (all_ones inc = true <-> v = None) /\
+               (bits_all_ones inc = true <-> v = None) /\
                (forall x, v = Some x -> (base + of_bits inc)%N = Z.to_N x)) raws incs.
 Proof. exact allones_iff_missing. Qed.
 Print Assumptions C05_allones_iff_missing.
@@ -198,7 +198,7 @@ Print Assumptions C05_col_roundtrip_onebit.
 (* with missing entries the COMPRESSED form still round-trips unless the column
    is missing throughout ... *)
 Theorem C05_col_roundtrip_onebit_some_present : forall ae raws o t,
-  flag_ok ae raws = true ->
+  col_flag_ok ae raws = true ->
   (forall x, In (Some x) raws -> (0 <= x <= 1)%Z) ->
   (exists x, In (Some x) raws) ->
   exists e, enc_col_num 1 ae raws o = Ok (o ++ e) /\
@@ -211,11 +211,11 @@ Print Assumptions C05_col_roundtrip_onebit_some_present.
    transparency is FALSE for one-bit columns with a missing entry *)
 Theorem C05_onebit_missing_refuted :
   (exists raws ae e vs,
-     flag_ok ae raws = true /\ forallb (in_range 1) raws = true /\
+     col_flag_ok ae raws = true /\ forallb (col_in_range 1) raws = true /\
      enc_col_num 1 ae raws [] = Ok e /\ dec_col_num 1 (length raws) e = Ok (vs, []) /\
      vs <> raw_view raws) /\
   (exists raws ae ec eu vc vu,
-     flag_ok ae raws = true /\ forallb (in_range 1) raws = true /\
+     col_flag_ok ae raws = true /\ forallb (col_in_range 1) raws = true /\
      enc_col_num 1 ae raws [] = Ok ec /\ enc_fields_num 1 raws [] = Ok eu /\
      dec_col_num 1 (length raws) ec = Ok (vc, []) /\
      dec_fields_num 1 (length raws) eu = Ok (vu, []) /\
